@@ -212,6 +212,52 @@ class FakeSimpleQueue:
         self.closed = True
 
 
+class Hang(Exception):
+    """the caller would block for ever (a budgeted wait ran out with nothing left that could end it)"""
+
+
+class ReadLock:
+    """The task queue's read lock as the parent sees it.  A worker waiting for a job sits in SimpleQueue.get_payload() -
+    `with self._rlock: return self._reader.recv_bytes()` - so while some live worker is idle and the queue is empty, that
+    worker holds the lock and lets go only when it is sent something (a task, a sentinel) or dies.  A parent-side
+    acquire therefore lets the workers and the other parent threads move (World.blocked_hook) until no idle worker is
+    left; if nothing can move any more the acquire would block for ever."""
+
+    def __init__(self, world, q):
+        self.world = world
+        self.q = q
+        self.parent_holds = False
+
+    def _idle(self):
+        return [x for x in self.world.procs if x.exitcode is None and x.state == 'idle']
+
+    def acquire(self, blocking=True, timeout=None):
+        w = self.world
+        for _ in range(12):
+            idle = self._idle()
+            if not idle:
+                self.parent_holds = True
+                return True
+            if not blocking:
+                return False
+            if self.q:
+                w.w_take(idle[0])          # the holder receives what is in the pipe and lets go of the lock
+                continue
+            hook = w.blocked_hook
+            if hook is None or not hook():
+                break
+        raise Hang('parent blocks on the task-queue read lock held by an idle worker')
+
+    def release(self):
+        self.parent_holds = False
+
+    def __enter__(self):
+        return self.acquire()
+
+    def __exit__(self, *a):
+        self.release()
+
+
 class FakeValue:
     def __init__(self, *a):
         self.value = 0
@@ -300,6 +346,7 @@ class World:
         self.out_times = collections.deque()   # enqueue instant of every pending worker message
         self.drain_bound = None     # assumption A-drain: no message stays unread this long
         self.join_hook = None
+        self.blocked_hook = None    # lets the other parent threads move while the caller blocks on a lock; returns True if something moved
         self.guard_waits = 0
 
     # -- OS side -------------------------------------------------------------
@@ -347,6 +394,7 @@ class World:
             # float caps every CrossHair verdict at "unknown")
             p.lost_worker_timeout = int(p.lost_worker_timeout)
         self.pool = p
+        p._inqueue._rlock = ReadLock(self, p._inqueue.q)     # held by a worker that waits for a job (see ReadLock)
         self.told_others = 0
         self._real_tell_others = p._task_handler.tell_others
         return p
